@@ -49,6 +49,8 @@ pub enum Resolver {
 
 pub struct X {
     pub cause: Cause,
+    /// the handler of this message is abandoned by a carry-on limit
+    pub abandoned: Option<u32>,
 }
 
 fn opname(op: &Op) -> String {
@@ -70,7 +72,7 @@ pub fn oracle(s: &ProgScene<X>, t: &Trace) -> Vec<Violation> {
     let stopped_exit = an.exits.iter().any(|e| e.a == 0 && e.cb == Cb::Stopped);
     // graceful = ended, not cancelled, stopped() completed AND nothing failed on the way (a
     // failed actor must not pass for a gracefully stopped one just because stopped() also ran)
-    let graceful = matches!(term, Some((_, false))) && stopped_exit && !an.role_failed(0, &s.roles[0].started);
+    let graceful = matches!(term, Some((_, false))) && stopped_exit && !an.role_failed_except(0, &s.roles[0].started, s.extra.abandoned);
     let op_at = |c: u8, i: u16| s.clients.get(c as usize).and_then(|cs| cs.ops.get(i as usize));
     let mut joins_some = 0;
     for o in &an.ops {
@@ -122,7 +124,7 @@ pub fn oracle(s: &ProgScene<X>, t: &Trace) -> Vec<Violation> {
                 if !accepted_before {
                     continue;
                 }
-                if !an.exit_of_msg(0, id).is_some_and(|x| x.idx < pend) && m.ok() {
+                if !an.exit_of_msg(0, id).is_some_and(|x| x.idx < pend) && m.ok() && s.extra.abandoned != Some(id) {
                     out.push(Violation {
                         clause: "ping-ok-means-picked-up",
                         key: format!("C02/ping-ok-behind-an-unfinished-message/{name}/cause={ck}"),
@@ -219,6 +221,15 @@ pub fn oracle(s: &ProgScene<X>, t: &Trace) -> Vec<Violation> {
                 key: "C02/hang/last-drop-did-not-end-the-actor".into(),
                 detail: format!("every strong handle was dropped but the actor never ended; {waiting} operation(s) are still waiting for it"),
             });
+        } else if an.ops.iter().any(|o| o.ok() && matches!(op_at(o.c, o.i), Some(Op::Stop(_)))) || an.ops.iter().any(|o| o.end.is_none() && matches!(op_at(o.c, o.i), Some(Op::Halt(_) | Op::Consume(_)))) {
+            // a stop request was accepted (or a halt / consume is waiting for its own): the actor
+            // never acted on it, whoever waits for its end waits for ever
+            let waiting = an.ops.iter().filter(|o| o.end.is_none()).count();
+            out.push(Violation {
+                clause: "resolves-after-termination",
+                key: format!("C02/hang/accepted-stop-never-took-effect/cause={ck}"),
+                detail: format!("a stop request was accepted but the actor never terminated; {waiting} operation(s) are still waiting"),
+            });
         } else {
             out.push(Violation {
                 clause: "scene-terminates",
@@ -299,9 +310,18 @@ pub fn make_case(progs: &[Vec<L>], cause: Cause, resolver: Resolver, mailbox: Ma
         Cause::Cancel(j) => exec.cancel = Some((0, j)),
         Cause::StopClient | Cause::LastDrop => {}
     }
+    let overrun = OVERRUN.with(|o| o.get()) && cause == Cause::StopClient;
+    if overrun {
+        // the first message of client 0 outlasts a carry-on limit (2 ticks, needs 5): it is
+        // abandoned, its caller is told so - and everything else goes on, the stop included
+        spawn.timeout = Some((2, false));
+        role.work.push((msg_id(0, 0), Work { sleep: 5, ..Work::default() }));
+        exec.select_choice = false;
+    }
     let desc = format!(
-        "resolve{} mailbox={} cause={:?} resolver={:?} progs={}",
+        "resolve{}{} mailbox={} cause={:?} resolver={:?} progs={}",
         crate::progscene::variant_tag(),
+        if overrun { " [the first handler overruns a carry-on limit]" } else { "" },
         mailbox.name(),
         cause,
         resolver,
@@ -311,7 +331,7 @@ pub fn make_case(progs: &[Vec<L>], cause: Cause, resolver: Resolver, mailbox: Ma
         desc,
         exec,
         bound,
-        scene: Box::new(ProgScene { variant: crate::progscene::current_variant(), attach: crate::progscene::attach_for(mailbox), spawn, roles: vec![role], clients, extra: X { cause }, oracle }),
+        scene: Box::new(ProgScene { variant: crate::progscene::current_variant(), attach: crate::progscene::attach_for(mailbox), spawn, roles: vec![role], clients, extra: X { cause, abandoned: if overrun { Some(msg_id(0, 0)) } else { None } }, oracle }),
     }
 }
 
@@ -439,8 +459,22 @@ impl crate::check::Scene for RepublishingSubscriber {
     }
 }
 
+thread_local! {
+    static OVERRUN: std::cell::Cell<bool> = const { std::cell::Cell::new(false) };
+}
+
 fn plain_cases(tier: Tier) -> Vec<Case> {
     let mut v = vec![];
+    // a handler that overruns a carry-on limit while calls, pings and the stop queue up behind it
+    OVERRUN.with(|o| o.set(true));
+    for &mb in &[Mailbox::U, Mailbox::B(1)] {
+        for resolver in [Resolver::Halt, Resolver::Await, Resolver::Join] {
+            for p in [vec![vec![L::CallAddr], vec![L::CallCal]], vec![vec![L::SendAddr, L::Ping], vec![L::CallAddr]], vec![vec![L::CallAddr, L::SendAddr], vec![L::Ping]]] {
+                v.push(make_case(&p, Cause::StopClient, resolver, mb, None));
+            }
+        }
+    }
+    OVERRUN.with(|o| o.set(false));
     let first0 = [L::CallAddr, L::CallCal, L::CallWCal, L::CallOwn];
     let first1 = [L::CallAddr, L::CallCal, L::CallWCal];
     let second = [None, Some(L::Ping), Some(L::SendAddr), Some(L::CallAddr), Some(L::CallAbandon), Some(L::SendAbandon)];
